@@ -12,7 +12,7 @@ usage: selftest.py [pattern]
 import glob, json, os, re, shutil, subprocess, sys, tempfile
 
 REPO = "/repo"
-PV = "/verif/bin/pv"
+PV = os.environ.get("PV", "/verif/bin/pv")
 
 def sh(*a, **k):
     return subprocess.run(a, capture_output=True, text=True, **k)
